@@ -284,6 +284,10 @@ func (u *Unit) Origins(v ssa.Value, opt *OriginOpts) []Origin {
 			}
 		case *ssa.Alloc:
 			add("alloc", u.Describe(x)+":"+typeShort(x.Type()), x)
+			// the address of a local whose whole value was stored: the stored values flow too
+			for _, s := range fi.allocStores[x] {
+				walk(s.Val)
+			}
 		case *ssa.MakeClosure:
 			add("other", "closure:"+u.qualName(x.Fn.(*ssa.Function)), x)
 		case *ssa.Global:
